@@ -16,6 +16,7 @@ Fixpoint pmap (g : geom) (p : list Qc) : list Qc :=
   | GStep cnt => step_expand cnt p
   | GLin _ _ G _ => qmatvec G p
   | GScale c _ g' => qvscale c (pmap g' p)
+  | GStepX _ cnt => step_expand cnt p
   end.
 
 Fixpoint fmap (g : geom) (f : list Qc) : list Qc :=
@@ -26,6 +27,7 @@ Fixpoint fmap (g : geom) (f : list Qc) : list Qc :=
   | GStep cnt => step_mean cnt f
   | GLin _ _ _ Gi => qmatvec Gi f
   | GScale _ ci g' => fmap g' (qvscale ci f)
+  | GStepX mx cnt => step_ext mx cnt f
   end.
 
 (* well-formed: what the constructors of the implementation guarantee *)
@@ -36,6 +38,7 @@ Fixpoint wf_geom (g : geom) : Prop :=
   | GStep cnt => Forall (fun k => (0 < k)%nat) cnt
   | GLin np nf G Gi => wf_mat np G /\ length G = nf /\ wf_mat nf Gi /\ length Gi = np
   | GScale _ _ g' => wf_geom g'
+  | GStepX _ cnt => Forall (fun k => k = 1%nat) cnt      (* max/min projections are linear only over one-node steps *)
   end.
 
 (* ---------- linear maps compose ---------- *)
@@ -204,37 +207,41 @@ Qed.
 (* ---------- every geometry: the conversions are these linear maps ---------- *)
 Lemma pmap_linear g : wf_geom g -> linear_map (par_dim g) (fun_dim g) (pmap g).
 Proof.
-  induction g as [n | r c o | cnt | np nf G Gi | c ci g IH]; cbn [wf_geom par_dim fun_dim pmap]; intros W.
+  induction g as [n | r c o | cnt | np nf G Gi | c ci g IH | mx cnt]; cbn [wf_geom par_dim fun_dim pmap]; intros W.
   - apply linear_map_id.
   - destruct o; [apply linear_map_id | apply unravelF_linear].
   - apply step_expand_linear.
   - destruct W as (WG & LG & _). rewrite <- LG. apply qmatvec_linear. exact WG.
   - apply (linear_map_comp _ (fun_dim g) _ (pmap g) (qvscale c)); [apply IH; exact W | apply linear_map_scale].
+  - apply step_expand_linear.
 Qed.
 
 Lemma fmap_linear g : wf_geom g -> linear_map (fun_dim g) (par_dim g) (fmap g).
 Proof.
-  induction g as [n | r c o | cnt | np nf G Gi | c ci g IH]; cbn [wf_geom par_dim fun_dim fmap]; intros W.
+  induction g as [n | r c o | cnt | np nf G Gi | c ci g IH | mx cnt]; cbn [wf_geom par_dim fun_dim fmap]; intros W.
   - apply linear_map_id.
   - destruct o; [apply linear_map_id | apply ravelF_linear].
   - apply step_mean_linear.
   - destruct W as (_ & _ & WGi & LGi). rewrite <- LGi. apply qmatvec_linear. exact WGi.
   - apply (linear_map_comp _ (fun_dim g) _ (qvscale ci) (fmap g)); [apply linear_map_scale | apply IH; exact W].
+  - rewrite (ones_sum cnt W). apply (linear_map_ext (length cnt) (length cnt) (fun x => x)); [|apply linear_map_id].
+    intros x Hx. symmetry. apply step_ext_ones; assumption.
 Qed.
 
 Lemma p2f_pmap g p : length p = par_dim g -> p2f g (V1 p) = Some (funval g (pmap g p)).
 Proof.
-  induction g as [n | r c o | cnt | np nf G Gi | c ci g IH]; cbn [par_dim p2f funval pmap]; intros H.
+  induction g as [n | r c o | cnt | np nf G Gi | c ci g IH | mx cnt]; cbn [par_dim p2f funval pmap]; intros H.
   - reflexivity.
   - rewrite H, Nat.eqb_refl. destruct o; reflexivity.
   - rewrite H, Nat.eqb_refl. reflexivity.
   - rewrite H, Nat.eqb_refl. reflexivity.
   - rewrite (IH H). cbn [option_map]. rewrite vmap_funval. reflexivity.
+  - rewrite H, Nat.eqb_refl. reflexivity.
 Qed.
 
 Lemma f2p_fmap g f : wf_geom g -> length f = fun_dim g -> f2p g (funval g f) = Some (V1 (fmap g f)).
 Proof.
-  revert f; induction g as [n | r c o | cnt | np nf G Gi | c ci g IH]; cbn [wf_geom fun_dim f2p funval fmap]; intros f W H.
+  revert f; induction g as [n | r c o | cnt | np nf G Gi | c ci g IH | mx cnt]; cbn [wf_geom fun_dim f2p funval fmap]; intros f W H.
   - reflexivity.
   - destruct o; reflexivity.
   - rewrite H, Nat.eqb_refl. cbn [andb].
@@ -243,6 +250,7 @@ Proof.
     apply Nat.ltb_lt. apply W. exact Hk.
   - rewrite H, Nat.eqb_refl. reflexivity.
   - rewrite vmap_funval. apply IH; [exact W | rewrite qvscale_length; exact H].
+  - rewrite H, Nat.eqb_refl. cbn [andb]. rewrite (ones_positive cnt W). reflexivity.
 Qed.
 
 (* ---------- function-backed models: forward/adjoint are linear for every geometry pair ---------- *)
